@@ -69,6 +69,11 @@ def gen_writes(rng, phase, n, nodes):
         k = c[1]
         owner.setdefault(k, rng.choice(nodes))   # one writer node per key: its final state is the truth
         out.append((owner[k], c))
+    # every phase ends with a value whose gossip frame is well above a megabyte (JSON renders a byte as up to four
+    # characters), followed by a small write on the same connection: both have to arrive
+    big_writer = rng.choice(nodes)
+    out.append((big_writer, ("SET", "p%dbig" % phase, "T%dxBIGq" % phase + "G" * rng.choice([400000, 600000, 1200000]))))
+    out.append((big_writer, ("SET", "p%dafter" % phase, "T%dxAFTERq" % phase)))
     return out
 
 
@@ -152,7 +157,9 @@ def run_case(rep, args, case, rng):
                     time.sleep(0.03)
             keys = sorted({c[1] for _, c in writes})
             # bounded wait for agreement
-            deadline = time.time() + 8.0
+            # (the bound only ends the wait; agreement ends it at once. It is generous because the check also runs on machines
+            # that are busy with other work, where a freshly restarted process may need seconds before its gossip loop turns)
+            deadline = time.time() + 30.0
             agreed = False
             views = None
             while time.time() < deadline:
@@ -172,11 +179,11 @@ def run_case(rep, args, case, rng):
             rep.count("phases_judged")
             rep.distinct((n, phase, len(writes)))
             if not agreed:
-                bad = [k for k in keys if len({repr(v[k]) for v in views}) > 1]
+                bad = [k for k in keys if any(v[k] != views[0][k] for v in views[1:])]
                 k = bad[0]
                 kind = "hash" if re.match(r"p\d+h", k) else "string"
-                rep.violation("C06|e2e-cluster|replicas-differ-9s-after-the-last-write|%s|%s" % (("written-at-the-restarted-node" if sub == 0 else "after-restart-of-a-peer") if phase == 2 else "all-up", kind),
-                              "key %s: %s (every node up, idle for 9 s = 450 gossip intervals)" % (k, [show(v[k]) for v in views]), dict(wit, key=k, phase=phase))
+                rep.violation("C06|e2e-cluster|replicas-differ-30s-after-the-last-write|%s|%s" % (("written-at-the-restarted-node" if sub == 0 else "after-restart-of-a-peer") if phase == 2 else "all-up", kind),
+                              "key %s: %s (every node up, idle for 30 s = 1500 gossip intervals)" % (k, [brief(v[k]) for v in views]), dict(wit, key=k, phase=phase))
                 return
             for k in keys:
                 if views[0][k] != truth.get(k):
@@ -190,6 +197,18 @@ def run_case(rep, args, case, rng):
         for s in servers:
             s.kill9()
         release_ports()
+
+
+def brief(st):
+    """A state small enough to read in a report: long values as (length, head)."""
+    cut = lambda b: b.decode("latin1") if len(b) <= 24 else "%s..(%d bytes)" % (b[:12].decode("latin1"), len(b))
+    if st is None or st == "?":
+        return st
+    if st[0] == "s":
+        return ["s", cut(st[1]), st[2]]
+    if st[0] == "h":
+        return ["h", {k.decode("latin1"): cut(v) for k, v in sorted(st[1].items())}]
+    return repr(st)
 
 
 def peer_leg(rep, args):
